@@ -5,6 +5,7 @@ from gen import *
 from oracle_util import *
 import ops
 import numpy as np
+import copy
 
 ID = 'C15'
 N_QUICK = 700
@@ -255,6 +256,14 @@ class Sharing:
                     for v in ax.attrs.values():
                         if isinstance(v, list): v.append(9.0)
                 if observe(a) != oa: c['_indep'] = 'mutating a metadata value of the copy in place changed the original'
+                # ... also when the mutable value sits INSIDE another metadata value (a dict holding a list, a list of lists)
+                nested = {'runs': [1, 2], 'deep': [[1], [2]]}
+                a.attrs['verif_nested'] = copy.deepcopy(nested)
+                b2 = a.copy()
+                b2.attrs['verif_nested']['runs'].append(3); b2.attrs['verif_nested']['deep'][0].append(9)
+                if a.attrs['verif_nested'] != nested: c['_indep'] = 'mutating a NESTED metadata value of the copy in place changed the original'
+                a.attrs['verif_nested']['runs'].append(4)
+                if b2.attrs['verif_nested']['runs'] != [1, 2, 3]: c['_indep'] = 'mutating a NESTED metadata value of the original in place changed the copy'
             return trace
         with warnings.catch_warnings():
             warnings.simplefilter('ignore')
